@@ -83,6 +83,24 @@ example :
       sameName ⟨"example.com", some 8443⟩ ⟨"example.com", none⟩ = true := by
   simp [specNamed, sameName]
 
+
+/-- **C20 (letter case never influences the decision).** Two Host values that differ only in ASCII case are treated
+    alike, whatever the rest of the request; likewise two server names. -/
+theorem C20_case_irrelevant_host (r : Req) (h h' : HostVal) (e : h.host.toLower = h'.host.toLower) :
+    handle { r with hostHdr := some h } = handle { r with hostHdr := some h' } := by
+  unfold handle namedHost hostEq
+  cases r.tls with
+  | none => rfl
+  | some sni =>
+    cases sni with
+    | none => rfl
+    | some s => cases r.h2 <;> cases r.authority <;> simp [e]
+
+theorem C20_case_irrelevant_sni (r : Req) (s s' : HostVal) (e : s.host.toLower = s'.host.toLower) :
+    handle { r with tls := some (some s) } = handle { r with tls := some (some s') } := by
+  unfold handle namedHost hostEq
+  simp only [e]
+
 end Hd.Sni
 
 
